@@ -145,6 +145,24 @@ Example C14_conns_le_max_serialized_partial_nonvacuous :
   end.
 Proof. vm_compute. split; reflexivity. Qed.
 
+(* Design-level statement for the repair (NOT a theorem about the code as written): if the
+   increment itself re-checks the cap ([step_res]: a request that finds the host full at the
+   increment is treated as "no host"), then under EVERY schedule and EVERY selection function,
+   sound or not, Conns is exact and never exceeds max_conns. *)
+Theorem C14_conns_le_max_repaired_design :
+  forall c sel s h, 0 < c_max_conns c -> reachable_res c sel s ->
+  conns s h = cnt (is_fwd h) (threads s) /\ conns s h <= c_max_conns c.
+Proof. exact conns_le_max_with_recheck. Qed.
+Print Assumptions C14_conns_le_max_repaired_design.
+
+Example C14_conns_le_max_repaired_design_nonvacuous :
+  match run_res cfg_refute (sel_first cfg_refute) (init 0)
+                [LSpawn; LSpawn; LSelect 0; LSelect 1; LBegin 0; LBegin 1] with
+  | Some s => conns s 0%nat = 1 /\ nth_error (threads s) 1 = Some (Selected None)
+  | None => False
+  end.
+Proof. vm_compute. split; reflexivity. Qed.
+
 (* serialised schedules are schedules, so everything above applies to them as well *)
 Theorem C14_serialized_is_reachable :
   forall c sel s, reachable_ser c sel s -> reachable c sel s.
